@@ -4,6 +4,7 @@
 # checks (default: the property the refactoring was written for) against it; every check must stay silent.
 tier=$1; shift
 wt=/tmp/wt_eval
+[ -d "$wt" ] || git -C /repo worktree add -q --detach "$wt" HEAD   # scratch worktree; remove it afterwards: git -C /repo worktree remove --force $wt
 for arg in "$@"; do
   rid=${arg%%:*}; checks=${arg#*:}; [ "$checks" = "$arg" ] && checks=${rid%%-*}
   cd $wt && git checkout -q -- . && git apply /verif/${REFDIR:-refactors}/$rid/patch.diff || { echo "REFACTOR $rid DOES NOT APPLY"; continue; }
